@@ -139,6 +139,11 @@ func ConfigureServerAndConfig(s *fasthttp.Server, tlsConfig *tls.Config) *Server
 		s: s,
 	}
 
+	// There is no ServerConfig to take, so the defaults are the configuration.
+	// Left at zero it announced MAX_CONCURRENT_STREAMS = 0 and refused every
+	// request, and ran without the header list limit.
+	s2.cnf.defaults()
+
 	s.NextProto(H2TLSProto, s2.ServeConn)
 	tlsConfig.NextProtos = append(tlsConfig.NextProtos, H2TLSProto)
 
